@@ -21,7 +21,9 @@ def run(ctx):
     RW.get_pos_lookup(ctx, "R08.h")
     RW.word_field_from_lang(ctx, "R08.h", "set_pos", "pos", "Lang::get_pos")
     RR.bounded_selection(ctx, "R06.a", check_limit_arg=False)
-    return info("R08.a: each of chars/words/tails/trans/offset is stored at a smaller slot than the rating, slots are written "
+    from . import r_rank as _RR3
+    _RR3.hit_from_record(ctx, "R08.i")
+    return info("R08.i: a hit copies id, title and rating of its record unchanged (no narrowing of the rating on the way). R08.a: each of chars/words/tails/trans/offset is stored at a smaller slot than the rating, slots are written "
                 "once and in range, Scores::iter walks front to back; R08.b: compare_hits is descending and each constrained "
                 "component has the documented sign; R08.c: only score_rating_up reads the rating; R08.d: function words are "
                 "exactly {Article, Preposition, Conjunction, Particle}; R08.e: score_words_up counts only !func matches; "
